@@ -6,6 +6,7 @@ package main
 
 import (
 	"fmt"
+	"strings"
 
 	"verifmc/node"
 
@@ -231,6 +232,73 @@ func seqFamilies(w *world) []*Family {
 				}) })
 			}
 		}
+	})
+	add("block-cache", 12, func(th bool, emit func(func() Case)) {
+		// every sequence up to the length bound over blocks that drive the orphan cache: junk orphans of
+		// three heights (two of them naming the deputy E as miner, who becomes "evil" when its two
+		// blocks of one height arrive: the manager then removes its cached blocks), the two blocks of E
+		// (one message, and one by one), real orphans whose parent arrives later, and the queue timer
+		E := w.blocks["C"].MinerAddress()
+		jo := func(h uint32, miner common.Address, salt byte) []byte {
+			b := junkOrphan(h, salt)
+			b.Header.MinerAddress = miner
+			return enc(types.Blocks{b})
+		}
+		type sym struct {
+			n string
+			w wire
+		}
+		alpha := []sym{
+			{"J10e", wire{0x08, jo(10, E, 0)}},
+			{"J11e", wire{0x08, jo(11, E, 0)}},
+			{"J12x", wire{0x08, jo(12, node.Deputy(1).Addr, 0)}},
+			{"EE", wire{0x08, enc(types.Blocks{w.blocks["C"], w.blocks["C2"]})}},
+			{"O", wire{0x08, w.enc1("O")}},
+		}
+		maxLen := 4
+		if th {
+			alpha = append(alpha,
+				sym{"J10e'", wire{0x08, jo(10, E, 2)}},
+				sym{"C", wire{0x08, w.enc1("C")}},
+				sym{"C2", wire{0x08, w.enc1("C2")}},
+				sym{"O2", wire{0x08, w.enc1("O2")}},
+				sym{"T", wire{waitQueue, nil}},
+			)
+		}
+		var rec func(prefix []int)
+		rec = func(prefix []int) {
+			if len(prefix) > 0 {
+				p := append([]int{}, prefix...)
+				emit(func() Case {
+					var names []string
+					var msgs []wire
+					for _, i := range p {
+						names = append(names, alpha[i].n)
+						msgs = append(msgs, alpha[i].w)
+					}
+					return seq("seq/block-cache/"+strings.Join(names, ","), playOpt{}, func() []wire { return msgs })
+				})
+			}
+			if len(prefix) == maxLen {
+				return
+			}
+			for i := range alpha {
+				if alpha[i].n == "T" {
+					// the timer only matters when something is cached, and waits half a second of real time: at most one per sequence
+					seenT := len(prefix) == 0
+					for _, j := range prefix {
+						if alpha[j].n == "T" {
+							seenT = true
+						}
+					}
+					if seenT {
+						continue
+					}
+				}
+				rec(append(prefix, i))
+			}
+		}
+		rec(nil)
 	})
 	return fams
 }
